@@ -634,7 +634,7 @@ impl Prop for C11 {
         true
     }
     fn random_cases(tier: Tier) -> u64 {
-        if tier == Tier::Quick { 20_000 } else { 400_000 }
+        if tier == Tier::Quick { 150_000 } else { 2_000_000 }
     }
     fn execute(k: &FaultCase, ctx: &mut Ctx) -> Verdict {
         match k.elem {
@@ -892,7 +892,7 @@ impl Prop for C12 {
         true
     }
     fn random_cases(tier: Tier) -> u64 {
-        if tier == Tier::Quick { 30_000 } else { 600_000 }
+        if tier == Tier::Quick { 300_000 } else { 4_000_000 }
     }
     fn execute(k: &LeakCase, ctx: &mut Ctx) -> Verdict {
         match k.elem {
